@@ -597,13 +597,21 @@ def snapshot(presented):
     return (snap, extra)
 
 
-def objective_sequence(spec, weights, calls):
+def objective_sequence(spec, weights, calls, inplace=False):
     """ONE objective object evaluated on several vectors in order.  calls: list of (sums, seq, declared_sorted).
-    Returns the list of outcomes (state kept by the object between evaluations would show as a wrong later value)."""
+    Returns the list of outcomes (state kept by the object between evaluations would show as a wrong later value).
+    inplace: the vectors (all of one length) are written into ONE container object, the way a bins-manager's sums array changes
+    while items are added (a list or an array; a tuple cannot be updated in place and is rebuilt)."""
     o = obj.MaximizeSmallestWeightedSum(list(weights)) if spec == "wmaxmin" else make_objective(spec)
     outs = []
+    container = None
     for sums, seq, declared in calls:
-        arg = make_sequence(sums, seq)
+        if inplace and container is not None and seq != "tuple" and len(container) == len(sums):
+            container[:] = list(sums)
+            arg = container
+        else:
+            arg = make_sequence(sums, seq)
+            container = arg
 
         def run(arg=arg, declared=declared):
             kw = {}
